@@ -146,8 +146,8 @@ GEN_DIR = os.path.join(LEAN, "GoSSE", "Gen")
 GEN_EQUIV = "GoSSE.Proofs.GenEquiv"
 GEN_EQUIV_MODS = ["GoSSE.Proofs.GenEquiv", "GoSSE.Proofs.GenEquivQueue", "GoSSE.Proofs.GenEquivFields",
                   "GoSSE.Proofs.GenEquivScan", "GoSSE.Proofs.GenEquivWrite", "GoSSE.Proofs.GenEquivEncode", "GoSSE.Proofs.GenEquivReplay",
-                  "GoSSE.Proofs.GenEquivUnmarshal", "GoSSE.Proofs.GenEquivEvent", "GoSSE.Proofs.GenEquivSession", "GoSSE.Proofs.GenEquivServer", "GoSSE.Proofs.GenEquivFieldRoutes", "GoSSE.Proofs.GenEquivReset", "GoSSE.Proofs.GenEquivUpgrade", "GoSSE.Proofs.GenEquivBackoff"]
-GEN_MODS = ["Parser", "Root", "Bufio", "Fields", "Write", "Replay", "Unmarshal", "Event", "Session", "FieldRoutes", "Upgrade", "Server", "Reset", "Backoff"]   # in import order
+                  "GoSSE.Proofs.GenEquivUnmarshal", "GoSSE.Proofs.GenEquivEvent", "GoSSE.Proofs.GenEquivSession", "GoSSE.Proofs.GenEquivServer", "GoSSE.Proofs.GenEquivFieldRoutes", "GoSSE.Proofs.GenEquivReset", "GoSSE.Proofs.GenEquivUpgrade", "GoSSE.Proofs.GenEquivBackoff", "GoSSE.Proofs.GenEquivJoeLoop", "GoSSE.Proofs.GenEquivJoeFanout"]
+GEN_MODS = ["Parser", "Root", "Bufio", "Fields", "Write", "Replay", "Unmarshal", "Event", "Session", "FieldRoutes", "Upgrade", "Server", "Reset", "JoeLoop", "Backoff"]   # in import order
 
 
 def _theorem_at(path, lineno):
@@ -220,7 +220,8 @@ def translate_step():
                 rel = os.path.relpath(d, built)
                 os.makedirs(os.path.join(olean, rel), exist_ok=True)
                 for fn in fs:
-                    if rel.endswith("Gen") or fn.startswith("GenEquiv"):
+                    # (whatever is compiled into the overlay must not be a link into the built tree: the compiler would write through it)
+                    if rel.endswith("Gen") or fn.startswith("GenEquiv") or fn.split(".")[0] in {m.split(".")[-1] for m in GEN_EQUIV_MODS}:
                         continue
                     os.symlink(os.path.join(d, fn), os.path.join(olean, rel, fn))
             for fn in os.listdir(built):
